@@ -61,7 +61,8 @@ class Runner:
 
     def run(self, programs, preload=("quantity", "quantity.predefined",
                                      "quantity.money"),
-            timeout=600, prog_timeout=120, shards=None, ctor_probe=True):
+            timeout=600, prog_timeout=120, shards=None, ctor_probe=True,
+            divlog=False):
         """Run programs; returns {pid: record}.  Programs keep their order
         inside a shard; sharding is round-robin."""
         programs = list(programs)
@@ -75,7 +76,8 @@ class Runner:
             base = os.path.join(self.tmp, "b%d-%d" % (self.batches, i))
             job = {"preload": list(preload), "accel": self.accel,
                    "reach": self.reach_on, "programs": chunk,
-                   "prog_timeout": prog_timeout, "ctor_probe": ctor_probe}
+                   "prog_timeout": prog_timeout, "ctor_probe": ctor_probe,
+                   "divlog": divlog, "faulthandler": self.native}
             with open(base + ".job", "w") as f:
                 json.dump(job, f)
             errf = open(base + ".err", "w")
